@@ -17,7 +17,17 @@ _m(
     "the direct evaluation a fresh Ptychography object at the ground truth goes through 2-3 public reconstruct() calls (1-2 "
     "iterations each, at most 4 batches, independently drawn loss types, reset=False continuation (2/3) or reset=True (1/3)) "
     "with nothing to optimise (no optimiser in mode A, dataset optimiser with lr=0 in mode B; truth probe also set as "
-    "initial_probe so that reset returns to it) and every iter_losses entry is judged.  The library itself (public preprocess on an all-ones "
+    "initial_probe so that reset returns to it) and every iter_losses entry is judged; the case then runs an interference step - an unrelated tiny reconstruction "
+    "(3x3 scan, 6x6 ROI, S 1..3, random data, adam on a drawn subset of object/probe/dataset) with a drawn set of "
+    "NON-default constraints (object: identical_slices (3/4), positivity off, fix_potential_baseline, apply_fov_mask, "
+    "gaussian_sigma, tv weights, q_lowpass; probe: orthogonalize_probe off, center_probe, tv_weight; dataset: "
+    "descan_shifts_constant, center_scan_positions, descan_tv_weight) given through reconstruct(reset=True, constraints=...), "
+    "the models' public constraints setters, or both, optionally followed by a second reset - and builds the SAME problem "
+    "from scratch once more, whose truth loss is judged again.  A separate large-scan stratum (2 cases per quick worker; "
+    "thorough 12 + 6 per worker) has J = g0 x g1 in 1001..1087 (thorough also 2001..2087) scan points, g0 in 21..48 or "
+    "transposed, ROI 6..8 px, S = M = 1, scan steps multiples of 1/8 px in [1.125, 2] with pixel size 0.25/0.5 A (float32-exact "
+    "positions, exact ties included), padding 2..6, descan A or B_constant, batches J | J/2 | J/3; only the truth loss is "
+    "evaluated there.  The library itself (public preprocess on an all-ones "
     "dataset of that geometry) supplies the object shape and the pixel position of the first scan point; the harness then "
     "builds a periodic unit-amplitude object of that shape (random phases of range 0.8-3.1 rad, white or 3x3-smoothed; "
     "potentials V in [0.01, strength]), M probe modes (soft aperture of radius 1.6..min(R,C)/2-0.5 detector pixels, defocus "
@@ -28,11 +38,11 @@ _m(
     "(ObjectPixelated.from_array(truth), probe through the public probe setter).  Perturbations: object phase noise sigma "
     "0.15-0.6 rad (|noise| added to potentials), probe extra defocus +-1.5-4 rad at the aperture edge.  A case is "
     "NON-TRIVIAL when S >= 2 or M >= 2 or the ROI is non-square or (some scan position is fractional and the effective "
-    "padding is > 0 on both axes) or the case is a reconstruct_history; cases skipped because a scan point lies within 2e-3 "
+    "padding is > 0 on both axes) or the case is a reconstruct_history or has more than 1000 scan points; cases skipped because a scan point lies within 2e-3 "
     "px of, but not exactly on, a half-integer or because they have the shape of an open known finding are recorded as "
     "trivial.  Tracked classes (coverage.classes): tie:half_pixel_position_even/odd_lower_neighbour, "
     "positions:exactly_integer_on_an_axis, modes:installed_out_of_order / installed_strongest_first, "
-    "kind:reconstruct_history, history:loss_family_changes_on_continuation / _after_reset, tie_rule_matching_library:*, "
+    "kind:reconstruct_history, kind:large_scan, scan_points:1001+ / 2001+, interference_ran, history:loss_family_changes_on_continuation / _after_reset, tie_rule_matching_library:*, "
     "patch_wraps_around_object_edge, roi:odd/even/square/nonsquare, S*, M*, type:*, loss:*, descan:*, batches:*.  distinct = SHA-1 of the canonical JSON "
     "of the whole case (shapes, S, M, type, loss, batch, descan, seed and every drawn parameter).",
     [
@@ -80,6 +90,11 @@ _m(
         "the models did not move; the harness installs no object/probe optimiser, uses lr = 0 for the dataset optimiser that "
         "descan mode B needs, and verifies afterwards that object and probe parameters are unchanged (harness error otherwise); "
         "clean tree: entries <= 0.02 of the bound",
+        "interference: a problem built from scratch owes the same truth bound whatever ran earlier in the process (instances "
+        "must not share mutable state); the interfering reconstruction itself is outside the claim - an exception inside it is "
+        "counted (interference_raised:*; none on the clean tree), not reported; clean tree: truth loss after interference <= "
+        "0.006 of the bound",
+        "large scans: same truth bound (it scales with J); each costs 0.5-1 s (the reference loops over positions)",
     ],
     workers=(4, 16),
     technique="property-based testing (Hypothesis) with a differential oracle: an independent float64 numpy multislice / "
